@@ -6,6 +6,7 @@ import XalanModel.C19.XDeque
 import XalanModel.C19.XBVec
 import XalanModel.C19.RArena
 import XalanModel.C19.AutoPtr
+import XalanModel.C19.OStream
 import Driver.Util
 /-
 xm_c19: (a) replays container operation logs on the allocation-explicit models (same request lines as
@@ -34,6 +35,7 @@ structure St where
   deque : XDeque := { bs := 1 }
   bvec : XBVec := {}
   ap : APState := {}
+  os : OStream := {}
   ra : RArena := { bs := 1 }
   raObjs : List (Option (Nat × Nat)) := []     -- objects in creation order: (block object id, slot); none = destroyed
   popNull : Bool := false
@@ -171,6 +173,28 @@ def apStep (s : St) : List String → St × String
       ({ s with ap := r.2.1, l := r.2.2 }, tail r.2.2 r.1 (showAP r.2.1))
     | none => (s, "bad")
 
+/-- `os new` | `os setenc <utf16|utf8|latin1|ascii|unsupported> <0|1>` (1: the creation of the transcoder is refused at its
+first request; 2: the copy of the encoding name after the transcoder was made throws — the failure the real stream was
+observed to have) | `os destroy` -/
+def osStep (s : St) : List String → St × String
+  | ["new"] => ({ s with os := {}, l := {} }, "new")
+  | ["setenc", e, fail] =>
+    let enc : Option Enc := match e with
+      | "utf16" => some .utf16 | "utf8" => some .utf8 | "latin1" => some .latin1 | "ascii" => some .ascii
+      | "unsupported" => some .unsupported | _ => none
+    match enc with
+    | some enc =>
+      let l0 : Ledger := if fail == "1" then { s.l with failAt := s.l.reqs + 1 } else { s.l with failAt := 0 }
+      let r := s.os.setEnc false enc l0 (fail == "2")
+      let word := match r.1, enc with | .ok, _ => "ok" | _, .unsupported => "exc" | _, _ => "oom"
+      ({ s with os := r.2.1, l := r.2.2 },
+       s!"enc {word} slot={if r.2.1.slot.isSome then 1 else 0} bad={r.2.2.bad}")
+    | none => (s, "bad")
+  | ["destroy"] =>
+    let l1 := s.os.destroy s.l
+    ({ s with os := {}, l := l1 }, s!"destroyed live={l1.live.length} bad={l1.bad}")
+  | _ => (s, "bad")
+
 def showDeque (d : XDeque) : String :=
   s!"idx={d.idx.items.length} free={d.freeV.items.length} :" ++ String.join (d.elems.map fun x => s!" {x}")
 
@@ -245,6 +269,7 @@ def step (s : St) (ws : List String) : St × String :=
     | "bv" :: rest => bvecStep s rest
     | "ra" :: rest => raStep s rest
     | "ap" :: rest => apStep s rest
+    | "os" :: rest => osStep s rest
     | ["v", "destroy"] =>
       -- ~XalanTransformer: XalanDestroy every object the vector holds, then ~XalanVector
       let held := s.created.filter fun c => s.vec.items.contains (Int.ofNat c.1)
